@@ -285,4 +285,21 @@ func c06Run(c *core.Ctx) {
 			}
 		}
 	}
+	// deliberate history (round 10): neighbouring large populations with EVERY Draws, evaluated one after
+	// another in one process, so that state kept between distributions (a memo keyed by a packed or
+	// truncated (N, Draws), a reused table) meets a colliding successor. 8-bit and 9-bit packing boundaries.
+	fam := []int{255, 256, 257, 300, 301}
+	if c.Thorough() {
+		fam = []int{127, 128, 129, 255, 256, 257, 258, 299, 300, 301, 302, 511, 512, 513}
+	}
+	if c.Mine() {
+		for _, N := range fam {
+			for D := 0; D <= N; D++ {
+				hc.N, hc.K, hc.Draws = N, N/2, D
+				r.Case("hyperg", hc)
+				r.Try(func() { c06Hyper(hc, r) })
+			}
+		}
+	}
+	r.Bound("hypergeometric-family", fmt.Sprintf("N in %v, K=N/2, every Draws and k, sequentially in one process", fam))
 }
